@@ -3,6 +3,7 @@ import glob
 import itertools
 import os
 import random
+import re
 
 import vlib
 from vlib import Case
@@ -10,28 +11,69 @@ from vlib import Case
 LEVEL = "proof"
 NAMES = "abc"
 
-# origins that expose recorded engine defects are generated only on request
-#   C07_DEFECTS=stale   waittill_any on several names while several names of the object are notified
-#                       (a notify nested in the resume loop of another notify wakes a thread that
-#                       the outer loop then resumes a second time, out of a later waittill)
-#   C07_DEFECTS=ptr     print the waitthread result after a callee that may be killed (the result
-#                       stays an unresolved 'pointer' value instead of NIL)
-#   C07_DEFECTS=order   waitthread callees that wait under different names of one object (the hash
-#                       order in which UnregisterAll enumerates names decides who resumes first)
+# Findings of this unit (engine defects that the faithful model reproduces; the specification
+# does not).  Signatures are stable; a finding is reported as KNOWN-FINDING when
+# /verif/known_findings.json lists its signature for C07.
+SIG_STALE = "C07-stale-wake"          # a waiter picked by one notify is woken/destroyed again through its other waittill_any registrations before its turn
+SIG_PTR = "C07-unresolved-result"     # println of a waitthread result after a killed callee shows an unresolved 'pointer' instead of NIL
+SIG_UB = "C07-vm-reentered"           # the timer loop runs nested and re-enters the VM of a thread that is still executing (use after free)
+WHAT = {
+    SIG_STALE: "a waiter picked by one notify is woken (or destroyed) a second time through its other waittill_any registrations by a notify/delete nested in the resume loop: wake-up without notify out of a later waittill (model = implementation != specification)",
+    SIG_PTR: "after a waitthread whose callee was killed (endon / removal of the awaited object) the caller's result is an unresolved 'pointer' value instead of NIL (model = implementation != specification)",
+    SIG_UB: "when the current thread dies, a nested ScriptExecuteInternal runs ExecuteRunning and resumes a waitthread caller whose VM is still executing: ScriptVM::Execute is re-entered and the VM is freed under its caller (AddressSanitizer: heap-use-after-free)",
+}
+# C07_DEFECTS=order  also generate waitthread callees waiting under different names of one object
+#                    (the hash order in which UnregisterAll enumerates names decides who resumes first;
+#                    the model abstracts it)
+# C07_DEFECTS=ub     also keep generated cases in which the model reports undefined behaviour
 DEFECTS = set(os.environ.get("C07_DEFECTS", "").replace(",", " ").split())
+
+FLAGS = re.compile(r" ub=(\d) stale=(\d)$")
+
+
+def split_flags(line):
+    m = FLAGS.search(line)
+    if not m:
+        return line, 0, 0
+    return line[:m.start()], int(m.group(1)), int(m.group(2))
+
+
+def analyse(lines):
+    """model/spec lines of the driver -> dict(m, s, ub, sig) ; m = model observations without flags,
+    cut after the first operation with undefined behaviour; sig = finding signature explaining m != s"""
+    m, s, ub, stale_at = [], [], None, None
+    for l in lines:
+        if l.startswith("m "):
+            core, u, _ = split_flags(l[2:])
+            if u and ub is None:
+                ub = len(m)
+            m.append(core)
+        elif l.startswith("s "):
+            core, _, st = split_flags(l[2:])
+            if st and stale_at is None:
+                stale_at = len(s)
+            s.append(core)
+    sig = None
+    if m != s:
+        k = 0
+        while k < min(len(m), len(s)) and m[k] == s[k]:
+            k += 1
+        if stale_at is not None and stale_at <= k:
+            sig = SIG_STALE
+        elif [x.replace("r=ptr", "r=nil") for x in m] == s:
+            sig = SIG_PTR
+        else:
+            sig = "model-vs-spec"
+    return {"m": m, "s": s, "ub": ub, "sig": sig}
 
 
 class Ctx:
-    def __init__(self, rng, maxthreads, nobj, stale_ok, ptr_ok, order_ok):
+    def __init__(self, rng, maxthreads, nobj, order_ok):
         self.rng = rng
         self.left = maxthreads
         self.nobj = nobj
         self.marker = 1
-        self.multi_any = stale_ok or rng.random() < 0.5    # else: one notified name per object
-        self.stale_ok = stale_ok
-        self.ptr_ok = ptr_ok
         self.order_ok = order_ok
-        self.notify_name = {o: rng.choice(NAMES) for o in range(3)}
 
     def mark(self):
         m = self.marker
@@ -48,17 +90,37 @@ class C07(vlib.HistoryProp):
     has_monitor = False
     batch = 1000
 
+    def __init__(self):
+        self.observed = {}        # signature -> [case ids]
+        self.dropped_ub = 0
+        self.cache = {}           # model trace -> analysis (for signature())
+
     def assumptions(self):
         return ["injected integral millisecond clock (hook H1), constant during an Execute; time scale 1 (the two time bases of the timer coincide: C06)",
                 "threads are straight-line programs of println / wait / waittill / waittill_any / notify / endon / delete / spawn / thread / waitthread / end; event names a, b, c (never \"delete\"/\"remove\", which the Listener destructor notifies)",
                 "script objects are plain Listeners held in level.o0..o2; a thread numbers itself from the counter level.ntid when it starts",
-                "the order in which con::set enumerates the NAMES of one listener (UnregisterAll, CancelWaitingAll) is modelled as c, b, a, \"\" and is observable only through the resume order of the waitthread callers of waiters destroyed by one delete under different names: such programs are generated only with C07_DEFECTS=order",
-                "recorded defects kept out of the default generation: stale wake-up through waittill_any (C07_DEFECTS=stale), unresolved pointer as waitthread result of a killed callee (C07_DEFECTS=ptr)"]
+                "the order in which con::set enumerates the NAMES of one listener (UnregisterAll, CancelWaitingAll) is modelled as c, b, a, \"\"; it is observable only through the resume order of the waitthread callers of waiters destroyed by ONE delete under DIFFERENT names: such programs are generated only with C07_DEFECTS=order",
+                "histories in which the model reports undefined behaviour (finding %s: the C++ re-enters a running VM) are not compared beyond that point; they are kept out of the generation unless the finding is recorded or C07_DEFECTS=ub" % SIG_UB]
+
+    def enabled(self, sig):
+        return any(f.get("signature") == sig for f in vlib.known_findings("C07"))
+
+    def known_match(self, record):
+        sig = record.get("signature")
+        for f in vlib.known_findings(self.cid):
+            if f.get("signature") and f["signature"] == sig:
+                return "%s: %s" % (sig, f.get("what", WHAT.get(sig, "")))
+        return None
+
+    def signature(self, case, rr, vv):
+        det = self.cache.get(tuple(rr.get("m_cmp") or []), {})
+        if det.get("ub") is not None:
+            return SIG_UB
+        if vv["kind"] == "model-vs-spec" and det.get("sig"):
+            return det["sig"]
+        return vv["kind"]
 
     # ---- generation -----------------------------------------------------------------
-    def obj(self, c):
-        return c.rng.randrange(c.nobj)
-
     # cumulative instruction weights per role:        t     y     n     e     d     s     w     th    wt    end   mark
     ROLES = {"mix":    [0.17, 0.27, 0.47, 0.55, 0.61, 0.66, 0.78, 0.88, 0.96, 0.98],
              "waiter": [0.30, 0.48, 0.56, 0.64, 0.66, 0.67, 0.80, 0.86, 0.96, 0.98],
@@ -71,52 +133,44 @@ class C07(vlib.HistoryProp):
         cw = self.ROLES[role]
         for _ in range(length):
             x = rng.random()
-            # map the role's weights onto the fixed thresholds used below
             k = next((i for i, v in enumerate(cw) if x < v), len(cw))
-            r = ([0.0] + self.ROLES["mix"])[k] + 1e-9
-            o = self.obj(c)
-            if r < 0.17:
+            o = rng.randrange(c.nobj)
+            if k == 0:
                 n = rng.choice(NAMES) if (c.order_ok or not callee) else "a"
                 p += [c.mark(), "t%d%s" % (o, n), c.mark()]
-            elif r < 0.27:
+            elif k == 1:
                 if callee and not c.order_ok:
-                    ns = "a"
-                elif c.multi_any:
-                    ns = "".join(rng.choice(NAMES) for _ in range(rng.choice([1, 2, 2, 3])))
+                    ns = "a" * rng.choice([1, 2])
                 else:
-                    ns = rng.choice(NAMES) * rng.choice([1, 2])
+                    ns = "".join(rng.choice(NAMES) for _ in range(rng.choice([1, 2, 2, 3])))
                 p += [c.mark(), "y%d%s" % (o, ns), c.mark()]
-            elif r < 0.47:
-                n = rng.choice(NAMES) if (c.stale_ok or not c.multi_any) else c.notify_name[o]
-                p += ["n%d%s" % (o, n), c.mark()]
-            elif r < 0.55:
+            elif k == 2:
+                p += ["n%d%s" % (o, rng.choice(NAMES)), c.mark()]
+            elif k == 3:
                 p += ["e%d%s" % (o, rng.choice(NAMES))]
-            elif r < 0.61:
+            elif k == 4:
                 p += ["d%d" % o, c.mark()]
-            elif r < 0.66:
+            elif k == 5:
                 p += ["s%d" % o]
-            elif r < 0.78:
+            elif k == 6:
                 p += ["w%d" % rng.choice([0, 1, 1, 2, 3]), c.mark()]
-            elif r < 0.88 and c.left > 0 and depth < 3:
+            elif k == 7 and c.left > 0 and depth < 3:
                 c.left -= 1
                 p += ["th["] + self.prog(c, rng.choice([1, 2, 3, 4]), depth + 1, callee, rng.choice(["waiter", "waiter", "mix", "driver"])) + ["]", c.mark()]
-            elif r < 0.96 and c.left > 0 and depth < 3:
+            elif k == 8 and c.left > 0 and depth < 3:
                 c.left -= 1
                 body = self.prog(c, rng.choice([1, 2, 3]), depth + 1, True, rng.choice(["waiter", "mix", "driver"]))
                 if rng.random() < 0.6:
                     body += ["end%d" % rng.randrange(1, 9)]
-                killable = any(t[0] in "tye" for t in body if t not in ("th[", "wt[", "]", "end")) or callee
-                p += [c.mark(), "wt["] + body + ["]", c.mark()]
-                if c.ptr_ok or not killable:
-                    p += ["r"]
-            elif r < 0.98:
+                p += [c.mark(), "wt["] + body + ["]", c.mark(), "r"]
+            elif k == 9:
                 p += ["end%d" % rng.randrange(1, 9) if rng.random() < 0.5 else "end"]
             else:
                 p += [c.mark()]
         return p
 
     def hist(self, rng, cid, nstarts, nframes, maxthreads, origin):
-        c = Ctx(rng, maxthreads - nstarts, 3 if rng.random() < 0.6 else 2, "stale" in DEFECTS, "ptr" in DEFECTS, "order" in DEFECTS)
+        c = Ctx(rng, maxthreads - nstarts, 3 if rng.random() < 0.6 else 2, "order" in DEFECTS)
         ops = []
         starts = sorted(rng.randrange(0, nframes + 1) for _ in range(nstarts))
         first = True
@@ -139,8 +193,8 @@ class C07(vlib.HistoryProp):
         ops += ["T 9", "X", "X"]
         return Case(cid, "", ops, origin)
 
-    ALPHA_Q = ["t0a", "n0a", "d0", "e0a", "w1", "y0ab"]
-    ALPHA_T = ["t0a", "n0a", "d0", "e0a", "w1", "y0ab", "n0b", "t0b", "s0", "w0"]
+    ALPHA_Q = ["t0a", "n0a", "d0", "e0a", "w1", "y0ab", "n0b"]
+    ALPHA_T = ["t0a", "n0a", "d0", "e0a", "w1", "y0ab", "n0b", "t0b", "s0", "w0", "e0b"]
 
     def marked(self, toks, base):
         out, m = [], base
@@ -150,14 +204,11 @@ class C07(vlib.HistoryProp):
         return out
 
     def exhaustive(self, tier, cases):
-        stale_ok = "stale" in DEFECTS
         alpha = self.ALPHA_Q if tier == "quick" else self.ALPHA_T
         shapes = [(2, 0, 2), (1, 1, 2)] if tier == "quick" else [(2, 0, 2), (1, 1, 2), (2, 1, 2), (2, 2, 1), (1, 1, 3)]
         k = len(cases)
         for (la, lb, lm) in shapes:
             for seq in itertools.product(alpha, repeat=la + lb + lm):
-                if not stale_ok and any(t[0] == "y" for t in seq) and len({t for t in seq if t[0] == "n"}) > 1:
-                    continue
                 a, b, m = seq[:la], seq[la:la + lb], seq[la + lb:]
                 prog = ["s0", "th["] + self.marked(a, 10) + ["]"]
                 if lb:
@@ -168,28 +219,79 @@ class C07(vlib.HistoryProp):
                                       "exhaustive-%d-%d-%d" % (la, lb, lm)))
                     k += 1
 
+    def finding_templates(self, rng, cases, n):
+        """histories aimed at the recorded findings (their own origins are assigned by classify)"""
+        k = len(cases)
+        for _ in range(n):
+            a, b, c3 = rng.sample(NAMES, 3)
+            v = ["t0%s" % a, "p1", "n0%s" % b, "p2"]
+            w = ["y0%s%s" % (a, b), "p3", rng.choice(["t0%s" % c3, "wt[ w2 p9 ]", "t0%s" % a]), "p4"]
+            first, second = (v, w) if rng.random() < 0.7 else (w, v)
+            cases.append(Case("f%d" % k, "", ["S s0 th[ " + " ".join(first) + " ] th[ " + " ".join(second) + " ] p5 n0%s p6" % a, "T 3", "X", "X"], "template"))
+            k += 1
+            kill = rng.choice(["e0%s p1 t0%s" % (a, b), "t0%s" % a, "e0%s p1 w2" % a])
+            how = rng.choice(["n0%s" % a, "d0"])
+            cases.append(Case("f%d" % k, "", ["S s0 p7 wt[ " + kill + " p2 end5 ] p8 r", "S %s p3" % how, "T 3", "X", "X"], "template"))
+            k += 1
+
+    def classify(self, cases):
+        """run the model and the specification on every candidate: drop histories with undefined
+        behaviour (keep a few when that finding is recorded), give the histories that show a
+        recorded finding their own origin"""
+        drv = vlib.ocaml_driver("C07")
+        keep = []
+        self.observed = {}
+        self.dropped_ub = 0
+        ub_kept = 0
+        ub_ok = "ub" in DEFECTS or self.enabled(SIG_UB)
+        for i in range(0, len(cases), 3000):
+            chunk = cases[i:i + 3000]
+            outs, crashes = vlib.run_resilient(drv, ["model"], chunk, timeout=600)
+            for c in chunk:
+                if c.id not in outs:
+                    keep.append(c)
+                    continue
+                a = analyse(outs[c.id])
+                if a["ub"] is not None:
+                    self.observed.setdefault(SIG_UB, []).append(c.id)
+                    if ub_ok and ub_kept < 3 and c.origin in ("corpus", "template"):
+                        ub_kept += 1
+                        c.origin = "finding-" + SIG_UB
+                        keep.append(c)
+                    else:
+                        self.dropped_ub += 1
+                    continue
+                if a["sig"] in (SIG_STALE, SIG_PTR):
+                    self.observed.setdefault(a["sig"], []).append(c.id)
+                    c.origin = "finding-" + a["sig"]
+                keep.append(c)
+        return keep
+
     def gen(self, tier, seed):
         rng = random.Random(seed)
         cases = []
         for p in sorted(glob.glob(os.path.join(vlib.VERIF, "corpus", "C07", "*.txt"))):
-            if os.path.basename(p).startswith("defect_") and not DEFECTS:
-                continue
             lines = [l.strip() for l in open(p) if l.strip() and not l.startswith("#")]
             cases.append(Case("c_" + os.path.basename(p)[:-4], "", lines, "corpus"))
         self.exhaustive(tier, cases)
+        self.finding_templates(rng, cases, 40 if tier == "quick" else 400)
         k = len(cases)
-        walks = ([(1, 2, 4, 1500), (2, 4, 4, 1500), (3, 6, 5, 600), (4, 14, 6, 150)] if tier == "quick"
+        walks = ([(1, 2, 4, 2500), (2, 4, 4, 2500), (3, 6, 5, 1200), (4, 14, 6, 300)] if tier == "quick"
                  else [(1, 2, 4, 12000), (2, 4, 4, 12000), (3, 6, 5, 8000), (4, 20, 6, 3000)])
         for ns, nf, mt, cnt in walks:
             for _ in range(cnt):
                 cases.append(self.hist(rng, "w%d" % k, ns, nf, mt, "random-%dstarts-%dframes" % (ns, nf)))
                 k += 1
-        return cases
+        return self.classify(cases)
 
     def canon_model(self, lines):
-        m = [l[2:] for l in lines if l.startswith("m ")]
-        s = [l[2:] for l in lines if l.startswith("s ")]
-        return m, [], m == s
+        a = analyse(lines)
+        m = a["m"] if a["ub"] is None else a["m"][:a["ub"]]
+        # a difference between model and specification that is one of the recorded findings is
+        # reported by check() below, not as a broken theorem
+        if a["ub"] is not None or a["sig"]:
+            self.cache[tuple(m)] = {"ub": a["ub"], "sig": a["sig"]}
+        return m, [], a["sig"] in (None, SIG_STALE, SIG_PTR)
 
     def canon_impl(self, lines):
         return [l[2:] for l in lines if l.startswith("m ")], [], [], None
@@ -208,11 +310,24 @@ HP = C07()
 
 def check(res, tier, seed):
     res.cov["rule"] += ("C07: corpus; every program `spawn o0; thread A; [thread B;] M` with A, B, M sequences over "
-                        "{waittill a, notify a, delete, endon a, wait 1, waittill_any a b} (thorough: + notify b, waittill b, spawn, wait 0; longer) "
-                        "x two frame schedules; seeded random histories of 1-4 host-started threads, up to 6 script threads, "
+                        "{waittill a, notify a, delete, endon a, wait 1, waittill_any a b, notify b} (thorough: + waittill b, spawn, wait 0, endon b; longer) "
+                        "x two frame schedules; templates aimed at the recorded findings; seeded random histories of 1-4 host-started threads, up to 6 script threads, "
                         "2-3 objects, names a/b/c, nested thread/waitthread bodies to depth 3, waits {0,1,1,2,3} ms, frames with and "
-                        "without clock advance; markers around every blocking instruction; non-trivial = one host operation made >= 2 threads print. ")
+                        "without clock advance; markers around every blocking instruction; every candidate is first run on model and specification: "
+                        "histories with undefined behaviour in the model are dropped, histories on which model and specification differ by a recorded "
+                        "finding get the origin finding-<signature>; non-trivial = one host operation made >= 2 threads print. ")
     vlib.history_check(res, HP, tier, seed)
+    res.cov["findings_observed"] = {k: len(v) for k, v in HP.observed.items()}
+    res.cov["dropped_undefined_behaviour"] = HP.dropped_ub
+    recorded = {f.get("signature"): f for f in vlib.known_findings("C07")}
+    for sig in (SIG_STALE, SIG_PTR):
+        if HP.observed.get(sig):
+            if sig in recorded:
+                res.known_finding("%s: %s (%d generated histories, e.g. case %s)" % (sig, recorded[sig].get("what", WHAT[sig]), len(HP.observed[sig]), HP.observed[sig][0]))
+            else:
+                res.notes.append("finding %s observed on %d histories but not (yet) listed in known_findings.json: %s" % (sig, len(HP.observed[sig]), WHAT[sig]))
+    if HP.observed.get(SIG_UB) and SIG_UB not in recorded:
+        res.notes.append("finding %s: %d generated histories dropped (model reports undefined behaviour): %s" % (SIG_UB, len(HP.observed[SIG_UB]), WHAT[SIG_UB]))
 
 
 def replay(path):
